@@ -392,45 +392,46 @@ func runE2E(in *bufio.Scanner, out *bufio.Writer) {
 					return "nosess"
 				}
 				mux := w.sessions[i].client.TubeMuxer
-				// "served" is inferred from silence (no end-of-stream within 400 ms after the fence came
-				// back), and silence can also be a lost datagram on a loaded machine - the FIN of an
-				// unreliable tube is not retransmitted at all, that of a reliable one only after its
-				// retransmission timeout.  So silence is believed only when three probes in a row are
-				// met with it; one end-of-stream means the server refuses tubes of this kind.
-				for attempt := 0; attempt < 3; attempt++ {
-					var probe interface {
-						io.Reader
-						io.Closer
-						SetReadDeadline(time.Time) error
-					}
-					var err error
-					if f[3] == "1" {
-						probe, err = mux.CreateReliableTube(tubes.TubeType(tt))
-					} else {
-						probe, err = mux.CreateUnreliableTube(tubes.TubeType(tt))
-					}
-					if err != nil {
-						return "tube-err"
-					}
-					fence, err := mux.CreateReliableTube(common.PrincipalProxyTube)
-					if err != nil {
-						return "tube-err"
-					}
-					if st := readByte(fence, e2eWait); st != "eof" {
-						wedged = wedged || st == "timeout"
-						return "fence-" + st
-					}
-					st := readByte(probe, 400*time.Millisecond)
-					go func() { probe.Close(); fence.Close() }()
-					switch st {
-					case "eof":
-						return "closed"
-					case "timeout":
-						continue
-					}
-					return "served" // the handler answered something
+				// "served" is inferred from silence: no end-of-stream on the probe after the fence - a tube the
+				// server handles after the probe - has come back.  How long silence must last is scaled by how
+				// long the fence's own round trip took just now: 400 ms on an idle machine, up to 6 s when the
+				// machine is so loaded that the fence needed hundreds of milliseconds.
+				var probe interface {
+					io.Reader
+					io.Closer
+					SetReadDeadline(time.Time) error
 				}
-				return "served"
+				var err error
+				if f[3] == "1" {
+					probe, err = mux.CreateReliableTube(tubes.TubeType(tt))
+				} else {
+					probe, err = mux.CreateUnreliableTube(tubes.TubeType(tt))
+				}
+				if err != nil {
+					return "tube-err"
+				}
+				t0 := time.Now()
+				fence, err := mux.CreateReliableTube(common.PrincipalProxyTube)
+				if err != nil {
+					return "tube-err"
+				}
+				if st := readByte(fence, e2eWait); st != "eof" {
+					wedged = wedged || st == "timeout"
+					return "fence-" + st
+				}
+				wait := 400*time.Millisecond + 12*time.Since(t0)
+				if wait > 6*time.Second {
+					wait = 6 * time.Second
+				}
+				st := readByte(probe, wait)
+				go func() { probe.Close(); fence.Close() }()
+				switch st {
+				case "eof":
+					return "closed"
+				case "timeout":
+					return "served"
+				}
+				return "served" // the handler answered something
 			case "issue":
 				i, g, leafOk, ok := parseIssue(f)
 				if !ok || !okUser([]byte(g.user)) {
